@@ -108,7 +108,74 @@ type problems []string
 
 func (p *problems) add(f string, a ...interface{}) { *p = append(*p, fmt.Sprintf(f, a...)) }
 
+// embedding: the model works with integer coordinates; for an embedded scene the implementation
+// is given x*scale+x0 instead (0 stays 0: "no coordinates"), i.e. data on the 1e-7 degree grid
+// somewhere on the globe, and the observed coordinates are mapped back through the table of the
+// values that were put in.  Convert copies coordinates and only uses them in equality tests,
+// the origin-shifted orientation sum and ray casting on axis-parallel edges, all of which are
+// sign-exact on the robust scenes chosen for embedding (no zero-area rings, rectangles only).
+type embedding struct {
+	x0, y0, scale float64
+	invX, invY    map[float64]int64
+}
+
+func (e *embedding) fx(v float64) float64 {
+	if v == 0 {
+		return 0
+	}
+	f := e.x0 + v*e.scale
+	e.invX[f] = int64(v)
+	return f
+}
+func (e *embedding) fy(v float64) float64 {
+	if v == 0 {
+		return 0
+	}
+	f := e.y0 + v*e.scale
+	e.invY[f] = int64(v)
+	return f
+}
+
+// apply returns a deep copy of o with every coordinate embedded
+func (e *embedding) apply(o *osm.OSM) *osm.OSM {
+	c := cloneOSM(o)
+	for _, n := range c.Nodes {
+		n.Lon, n.Lat = e.fx(n.Lon), e.fy(n.Lat)
+	}
+	for _, w := range c.Ways {
+		for i := range w.Nodes {
+			w.Nodes[i].Lon, w.Nodes[i].Lat = e.fx(w.Nodes[i].Lon), e.fy(w.Nodes[i].Lat)
+		}
+	}
+	for _, r := range c.Relations {
+		for i := range r.Members {
+			for j := range r.Members[i].Nodes {
+				wn := &r.Members[i].Nodes[j]
+				wn.Lon, wn.Lat = e.fx(wn.Lon), e.fy(wn.Lat)
+			}
+		}
+	}
+	return c
+}
+
+// curEmb is the embedding of the scene being observed (nil: coordinates are the integers)
+var curEmb *embedding
+
 func coord(p orb.Point, pr *problems) [2]int64 {
+	if curEmb != nil {
+		var out [2]int64
+		for i, inv := range []map[float64]int64{curEmb.invX, curEmb.invY} {
+			if p[i] == 0 {
+				continue
+			}
+			v, ok := inv[p[i]]
+			if !ok {
+				pr.add("coordinate %v is not one of the input coordinates", p[i])
+			}
+			out[i] = v
+		}
+		return out
+	}
 	for _, c := range p {
 		if c != math.Trunc(c) || math.Abs(c) > 1e9 {
 			pr.add("non-integer coordinate %v", c)
@@ -520,10 +587,18 @@ func tsOf(t time.Time) int64 {
 	return t.Unix()
 }
 
-func wnDesc(ns osm.WayNodes) [][3]int64 {
-	out := [][3]int64{}
+// tsDesc: nil for the zero time, otherwise unix seconds (0 = the epoch)
+func tsDesc(t time.Time) interface{} {
+	if t.IsZero() {
+		return nil
+	}
+	return t.Unix()
+}
+
+func wnDesc(ns osm.WayNodes) [][3]float64 {
+	out := [][3]float64{}
 	for _, n := range ns {
-		out = append(out, [3]int64{int64(n.ID), int64(n.Lon), int64(n.Lat)})
+		out = append(out, [3]float64{float64(n.ID), n.Lon, n.Lat})
 	}
 	return out
 }
@@ -532,11 +607,11 @@ func describeInput(o *osm.OSM, areas []bool) map[string]interface{} {
 	var ns, ws, rs []interface{}
 	for _, n := range o.Nodes {
 		ns = append(ns, map[string]interface{}{"id": n.ID, "lon": n.Lon, "lat": n.Lat, "tags": tagsDesc(n.Tags),
-			"meta": []interface{}{tsOf(n.Timestamp), n.Version, n.ChangesetID, n.User, n.UserID}})
+			"meta": []interface{}{tsDesc(n.Timestamp), n.Version, n.ChangesetID, n.User, n.UserID}})
 	}
 	for i, w := range o.Ways {
 		m := map[string]interface{}{"id": w.ID, "nodes": wnDesc(w.Nodes), "tags": tagsDesc(w.Tags),
-			"meta": []interface{}{tsOf(w.Timestamp), w.Version, w.ChangesetID, w.User, w.UserID}}
+			"meta": []interface{}{tsDesc(w.Timestamp), w.Version, w.ChangesetID, w.User, w.UserID}}
 		if i < len(areas) {
 			m["area"] = areas[i]
 		}
@@ -548,7 +623,7 @@ func describeInput(o *osm.OSM, areas []bool) map[string]interface{} {
 			ms = append(ms, map[string]interface{}{"type": m.Type, "ref": m.Ref, "role": m.Role, "orientation": m.Orientation, "nodes": wnDesc(m.Nodes)})
 		}
 		rs = append(rs, map[string]interface{}{"id": r.ID, "members": ms, "tags": tagsDesc(r.Tags),
-			"meta": []interface{}{tsOf(r.Timestamp), r.Version, r.ChangesetID, r.User, r.UserID}})
+			"meta": []interface{}{tsDesc(r.Timestamp), r.Version, r.ChangesetID, r.User, r.UserID}})
 	}
 	return map[string]interface{}{"nodes": ns, "ways": ws, "relations": rs}
 }
@@ -581,7 +656,7 @@ func (e *enc) tags(t [][2]string) {
 }
 
 func (e *enc) meta(ts time.Time, v int, cs osm.ChangesetID, user string, uid osm.UserID) {
-	e.c.Int(tsOf(ts)).Int(int64(v)).Int(int64(cs))
+	e.c.Bool(!ts.IsZero()).Int(tsOf(ts)).Int(int64(v)).Int(int64(cs))
 	e.str(user)
 	e.c.Int(int64(uid))
 }
@@ -663,6 +738,7 @@ type run struct {
 }
 
 type scene struct {
+	emb       string   // how the model's integer coordinates were embedded ("" = as they are)
 	order     [][]int  // the order in which the option sets were converted, per pass
 	in        *osm.OSM // pristine deep copy of what Convert was given (taken before anything ran)
 	areas     []bool   // Way.Polygon() of every way, evaluated on another copy
@@ -760,7 +836,7 @@ func (s *scene) encode(class string) *wire.Case {
 			e.feature(f)
 		}
 	}
-	c.Desc = map[string]interface{}{"input": describeInput(o, s.areas), "input_unchanged": s.unchanged, "runs": s.runs, "call_order": s.order,
+	c.Desc = map[string]interface{}{"input": describeInput(o, s.areas), "input_unchanged": s.unchanged, "runs": s.runs, "call_order": s.order, "coordinates": s.emb,
 		"harness_problems": []string(s.problems)}
 	if inKnownClass(o) {
 		c.Known = knownClass
@@ -788,11 +864,25 @@ func (s *scene) encode(class string) *wire.Case {
 }
 
 // runScene converts the data set under each option set (twice) and snapshots the input.
-func runScene(o *osm.OSM, bitsList []int) *scene {
+func runScene(o *osm.OSM, bitsList []int) *scene { return runSceneEmb(o, bitsList, nil) }
+
+// runSceneEmb: o holds the model's integer coordinates; with an embedding the implementation
+// converts the embedded copy and the observations are mapped back
+func runSceneEmb(model *osm.OSM, bitsList []int, emb *embedding) *scene {
+	o := model
+	if emb != nil {
+		o = emb.apply(model)
+	}
+	curEmb = emb
+	defer func() { curEmb = nil }()
 	// the harness itself never calls a method on the data handed to Convert: the description,
 	// the encoding and the Polygon() flags all work on deep copies taken first
 	before := cloneOSM(o)
 	s := &scene{in: before}
+	if emb != nil {
+		s.in = cloneOSM(model)
+		s.emb = fmt.Sprintf("lon = %v + x*%v, lat = %v + y*%v (0 stays 0)", emb.x0, emb.scale, emb.y0, emb.scale)
+	}
 	for _, w := range cloneOSM(o).Ways {
 		s.areas = append(s.areas, w.Polygon())
 	}
@@ -842,7 +932,8 @@ func runScene(o *osm.OSM, bitsList []int) *scene {
 
 var interestingTags = [][2]string{{"building", "yes"}, {"highway", "residential"}, {"natural", "water"}, {"name", "A"},
 	{"name", "B"}, {"area", "yes"}, {"area", "no"}, {"landuse", "forest"}, {"barrier", "wall"}, {"amenity", "cafe"}, {"empty", ""},
-	{"route", "bus"}, {"type", "x"}, {"building", "no"}, {"waterway", "riverbank"}}
+	{"route", "bus"}, {"type", "x"}, {"building", "no"}, {"waterway", "riverbank"},
+	{"", "emptykey"}, {"name", "Caf\u00e9 \u540d\u524d"}, {"\u540d\u524d", "x"}, {"na\u00efve", ""}}
 
 // keys that look like the uninteresting ones but are not in the list: prefixes, suffixes, family
 // members, other case.  An element carrying only such tags is interesting.
@@ -918,8 +1009,13 @@ func randMeta(rng *rand.Rand) (m metaFields) {
 	if rng.Intn(3) == 0 {
 		return
 	}
-	if rng.Intn(2) == 0 {
+	switch rng.Intn(8) {
+	case 0, 1, 2, 3:
 		m.ts = time.Unix(1300000000+int64(rng.Intn(1000)), 0).UTC()
+	case 4:
+		m.ts = time.Unix(0, 0).UTC() // the epoch is a timestamp, not "no timestamp"
+	case 5:
+		m.ts = time.Unix(-86400, 0).UTC()
 	}
 	if rng.Intn(3) != 0 {
 		m.v = 1 + rng.Intn(5)
@@ -999,7 +1095,7 @@ func (g *gen) relation(tags osm.Tags, members osm.Members) *osm.Relation {
 // member roles as they occur in OSM (public transport, routes, multipolygons) plus junk
 var routeRoles = []string{"", "", "forward", "backward", "platform", "platform_exit_only", "platform_entry_only", "stop",
 	"stop_exit_only", "north", "alternative", "link", "inner", "outer", "Forward", "x y", "platformx"}
-var otherRoles = []string{"", "subarea", "Outer", "INNER", "outer ", "label", "admin_centre", "platform", "forward", "main_stream", "enclave"}
+var otherRoles = []string{"", "subarea", "Outer", "INNER", "outer ", "label", "admin_centre", "platform", "forward", "main_stream", "enclave", "\u00e4u\u00dfen", "outer\u200b"}
 
 func (g *gen) orient() orb.Orientation {
 	switch g.rng.Intn(5) {
@@ -1143,12 +1239,16 @@ func (g *gen) multipolygon(ox, oy int) {
 		x0 := ox + k*12
 		ids, ccw := g.rect(x0, oy, x0+10, oy+10)
 		ws, os := g.ringWays(ids, ccw, outerTags, rng.Intn(6) == 0)
-		if rng.Intn(8) == 0 && len(ws) > 0 {
-			// the way is not in the data; sometimes its nodes are annotated on the member
+		if rng.Intn(6) == 0 && len(ws) > 0 {
+			// the way is not in the data (sometimes its nodes are annotated on the member), or
+			// it is there as a skeleton without node refs while the member carries the nodes
 			w := ws[0]
-			g.o.Ways = removeWay(g.o.Ways, w.ID)
+			skeleton := rng.Intn(3) == 0
+			if !skeleton {
+				g.o.Ways = removeWay(g.o.Ways, w.ID)
+			}
 			m := osm.Member{Type: osm.TypeWay, Ref: int64(w.ID), Role: "outer", Orientation: os[0]}
-			if rng.Intn(2) == 0 {
+			if skeleton || rng.Intn(2) == 0 {
 				for _, wn := range w.Nodes {
 					for _, n := range g.o.Nodes {
 						if n.ID == wn.ID {
@@ -1156,6 +1256,9 @@ func (g *gen) multipolygon(ox, oy int) {
 						}
 					}
 				}
+			}
+			if skeleton {
+				w.Nodes = nil
 			}
 			members = append(members, m)
 			ws, os = ws[1:], os[1:]
@@ -1232,6 +1335,9 @@ func removeWay(ws osm.Ways, id osm.WayID) osm.Ways {
 func (g *gen) route(ox, oy int) {
 	rng := g.rng
 	n := 2 + rng.Intn(6)
+	if rng.Intn(12) == 0 {
+		n = []int{12, 13, 14, 16, 17, 18, 32, 33, 34, 40}[rng.Intn(10)]
+	}
 	var ids []osm.NodeID
 	x, y := ox, oy
 	for i := 0; i < n; i++ {
@@ -1381,12 +1487,49 @@ func randomScene(rng *rand.Rand) (*osm.OSM, string) {
 	return randomSceneParts(rng, 1+rng.Intn(3))
 }
 
+// tinyAreas: a handful of very small closed area ways (rectangles and right triangles with sides
+// of 1 to 4 grid steps), written in either direction, some cut short by a missing closing node.
+// None has zero area, so the scene stays embeddable.
+func (g *gen) tinyAreas(ox, oy int) {
+	rng := g.rng
+	for k := 2 + rng.Intn(5); k > 0; k-- {
+		x0, y0 := ox+6*k, oy+rng.Intn(4)
+		w, h := 1+rng.Intn(4), 1+rng.Intn(4)
+		pts := [][2]int{{x0, y0}, {x0 + w, y0}, {x0 + w, y0 + h}, {x0, y0 + h}}
+		if rng.Intn(3) == 0 {
+			pts = pts[:3] // a triangle
+		}
+		if rng.Intn(2) == 0 {
+			for a, b := 0, len(pts)-1; a < b; a, b = a+1, b-1 {
+				pts[a], pts[b] = pts[b], pts[a]
+			}
+		}
+		var ids []osm.NodeID
+		for _, p := range pts {
+			ids = append(ids, g.node(p[0], p[1], nil))
+		}
+		if len(ids) == 3 {
+			// Polygon() wants more than three node refs: go round once more over the first edge
+			ids = append(ids, ids[0], ids[1], ids[2])
+		}
+		ids = append(ids, ids[0])
+		tags := osm.Tags{{Key: "building", Value: "yes"}}
+		if rng.Intn(3) == 0 {
+			tags = osm.Tags{{Key: "area", Value: "yes"}, {Key: "source", Value: "s"}}
+		}
+		g.wayOf(ids, tags, rng.Intn(4) == 0)
+	}
+}
+
 func randomSceneParts(rng *rand.Rand, parts int) (*osm.OSM, string) {
 	g := newGen(rng)
 	class := ""
 	for p := 0; p < parts; p++ {
 		ox, oy := 100+40*p, 50+rng.Intn(5)
-		switch rng.Intn(4) {
+		switch rng.Intn(5) {
+		case 4:
+			g.tinyAreas(ox, oy)
+			class += "A"
 		case 0:
 			g.loose(ox, oy)
 			class += "L"
@@ -1556,6 +1699,36 @@ func corpus() []*osm.OSM {
 	return out
 }
 
+// embeddedCorpus: scenes converted on the 1e-7 degree grid far from (0,0)
+func embeddedCorpus() []*osm.OSM {
+	var out []*osm.OSM
+	// tiny buildings (sides of 2 to 7 grid steps = 2 to 8 cm), written clockwise and
+	// counter-clockwise, one with a missing closing node, next to a tiny route
+	out = append(out, &osm.OSM{
+		Nodes: nodesAt([3]int{1, 11, 11}, [3]int{2, 13, 11}, [3]int{3, 13, 14}, [3]int{4, 11, 14},
+			[3]int{5, 21, 21}, [3]int{6, 21, 28}, [3]int{7, 27, 28}, [3]int{8, 27, 21}, [3]int{9, 40, 40}, [3]int{10, 41, 42}),
+		Ways: osm.Ways{wayIDs(1, tagsOf("building", "yes"), 1, 2, 3, 4, 1), wayIDs(2, tagsOf("building", "yes"), 5, 6, 7, 8, 5),
+			wayIDs(3, tagsOf("area", "yes"), 901, 4, 3, 2, 1, 901), wayIDs(4, tagsOf("highway", "path"), 9, 10), wayIDs(5, nil, 10, 8)},
+		Relations: osm.Relations{{ID: 1, Tags: tagsOf("type", "route"), Members: osm.Members{{Type: osm.TypeWay, Ref: 5}, {Type: osm.TypeWay, Ref: 4}}}},
+	})
+	// a tiny multipolygon with a hole, outer ring in two ways, and an old-style one
+	o := sharedOuter()
+	o.Relations = o.Relations[:1]
+	out = append(out, o)
+	// very large ids (feature ids pack 40 bits of ref)
+	big := &osm.OSM{
+		Nodes:     nodesAt([3]int{1, 5, 5}, [3]int{2, 9, 5}, [3]int{3, 9, 9}),
+		Ways:      osm.Ways{wayIDs(1, tagsOf("highway", "path"), 1, 2, 3)},
+		Relations: osm.Relations{{ID: 1, Tags: tagsOf("type", "route"), Members: osm.Members{{Type: osm.TypeWay, Ref: 1}, {Type: osm.TypeNode, Ref: 1, Role: "stop"}}}},
+	}
+	const N, W, R = int64(1)<<33 + 7, int64(1)<<39 + 1, int64(1)<<40 - 1
+	big.Nodes[0].ID, big.Ways[0].Nodes[0].ID, big.Relations[0].Members[1].Ref = osm.NodeID(N), osm.NodeID(N), N
+	big.Ways[0].ID, big.Relations[0].Members[0].Ref = osm.WayID(W), W
+	big.Relations[0].ID = osm.RelationID(R)
+	out = append(out, big)
+	return out
+}
+
 // ---------- canaries ----------
 
 func canaries() []*wire.Case {
@@ -1614,8 +1787,17 @@ func main() {
 	for i := range all {
 		all[i] = i
 	}
+	places := [][2]float64{{151.2093, -33.8688}, {-122.4194, 37.7749}, {13.4, 52.52}, {-179.9990001, 89.9990001}, {0.0000013, -0.0000027}}
 	add := func(o *osm.OSM, class string) {
-		s := runScene(o, all)
+		var emb *embedding
+		if strings.HasPrefix(class, "embed:") || (class != "corpus" && !strings.Contains(class, "L") && rng.Intn(2) == 0) {
+			// robust scenes (rectangle rings and route chains only: no zero-area rings) are
+			// converted on the 1e-7 degree grid somewhere on the globe
+			pl := places[rng.Intn(len(places))]
+			emb = &embedding{x0: pl[0], y0: pl[1], scale: 1e-7, invX: map[float64]int64{}, invY: map[float64]int64{}}
+			w.Count("embedded")
+		}
+		s := runSceneEmb(o, all, emb)
 		c := s.encode(class)
 		c.Trivial = len(s.runs[0].Features) == 0
 		w.Add(c)
@@ -1639,6 +1821,9 @@ func main() {
 	}
 	for _, o := range corpus() {
 		add(o, "corpus")
+	}
+	for _, o := range embeddedCorpus() {
+		add(o, "embed:corpus")
 	}
 	for i := 0; i < n; i++ {
 		o, class := randomScene(rng)
